@@ -111,6 +111,7 @@ class World:
             if len(self.immutable) < 3:
                 self.noaccess = ":".join([self.data, self.isadir, self.other])
         self.ncli = 0
+        self.mid_sizes = set()    # exact sizes of files cut mid-stream by this harness (pickle sizes vary between processes)
         self.nload = 1000
         self.ospid = {}           # os pid -> cli run number
         self.events = []          # Coq events (strings)
@@ -197,7 +198,7 @@ class World:
             cid = prefer if prefer in cands else (min(cands) if cands else None)
             return "(OComplete (mkData %d %d %d))" % ((iv, 0, cid) if cid is not None else (iv, 99, 0))
         size = len(raw)
-        k = 0 if size == 0 else 1 if size <= 64 else 3 if size >= 0.9 * refs["size"] else 2
+        k = 0 if size == 0 else 1 if size <= 64 else 2 if (size in self.mid_sizes or size == refs["size"] // 2) else 3
         return "(OPartial %d)" % k
 
     def observe_all(self, refs):
@@ -285,11 +286,11 @@ class World:
             self.events.append("EvEdit apath %d" % c)
             self.log.append("edit model file -> content #%d" % c)
         elif kind == "plant":
-            # ("plant", where, k, data_variant, iv_delta): first k byte-classes of the pickle of parse(content variant)
+            # ("plant", where, k, data_variant | "cur", iv_delta): first k byte-classes of the pickle of parse(content)
             where, k, dv, ivd = o[1:]
             loc = ("comp" if where == "comp" else "home", 0, self.cur)
             path = self.loc_path(loc)
-            dc = CID_ARCH0 + dv
+            dc = self.cur if dv == "cur" else CID_ARCH0 + dv
             raw = refs["pickle"][dc]
             div = iv
             if ivd:
@@ -298,6 +299,8 @@ class World:
                 data["internal_version"] = div
                 raw = pickle.dumps(data)
             cut = {0: 0, 1: 11, 2: len(raw) // 2, 3: len(raw) - 1, 4: len(raw)}[k]
+            if k == 2:
+                self.mid_sizes.add(cut)
             was = [d for d in self.immutable]
             for d in was:
                 chattr("-i", d)
@@ -335,11 +338,12 @@ class World:
             ps = [self.start_cli() for _ in range(o[1])]
             res = [(n,) + self.finish_cli(p) for n, p in ps]
             ns = [n for n, _ in ps]
+            judged = [(n, self.judge_cli(n, rc, out, err, refs)) for n, rc, out, err in res]
             self.events.append("EvRace [%s] apath" % "; ".join(str(3 * n) for n in ns))
-            self.events.append("EvRace [%s] ipath" % "; ".join(str(3 * n + 1) for n in ns))
+            # runs that failed are taken to have failed in their first (arch) load
+            self.events.append("EvRace [%s] ipath" % "; ".join(str(3 * n + 1) for n, oc in judged if oc.startswith("(ODone")))
             ocs = []
-            for n, rc, out, err in res:
-                oc = self.judge_cli(n, rc, out, err, refs)
+            for n, oc in judged:
                 ocs.append(oc)
                 if oc.startswith("(ODone"):
                     self.events.append("EvLoad %d apath true" % (3 * n + 2))
